@@ -332,6 +332,31 @@ def run(ctx):
                           (lambda rc=real_col, c=c: F['COUNTIF'](arr([[x] for x in rc]), c)),
                           {'fn': 'COUNTIF', 'range': col, 'criteria': c}))
 
+    # MATCH / VLOOKUP over error, blank and boolean cells, row vectors: outside the statement, model only
+    def oddw(x):
+        return 'E:NA' if x == 'E' else wv(x)
+
+    def oddv(x):
+        return xlerrors.NaExcelError() if x == 'E' else x
+    for col, key, mt in [] if replay_only else [
+            ([1, 'E', 3], 3, 0), ([1, 'E', 3], 3, 1), ([1, 'E', 3], 3, -1), (['E', 1], 1, 0), ([1, None, 3], 3, 0),
+            ([None, 1, 3], 0, 0), ([1, 2, None], 2, 1), ([True, 1], 1, 0), ([1, True], True, 0), ([1, 2, True], 5, 1)]:
+        cases.append(Case('match-odd-cells', ['match', wv(key), 'A:' + ';'.join(oddw(x) for x in col), wv(mt)],
+                          (lambda col=col, key=key, mt=mt: F['MATCH'](key, arr([[oddv(x)] for x in col]), mt)),
+                          {'fn': 'MATCH', 'lookup': key, 'array': col, 'match_type': mt}))
+    if not replay_only:
+        cases.append(Case('match-odd-cells', ['match', 'I:2', 'A:I:1,I:2,I:3', 'I:0'],
+                          (lambda: F['MATCH'](2, arr([[1, 2, 3]]), 0)),
+                          {'fn': 'MATCH', 'lookup': 2, 'array': [[1, 2, 3]], 'match_type': 0}))
+    for tb, key, col in [] if replay_only else [
+            ([['E', 1], [2, 3]], 2, 2), ([[None, 1], [0, 3]], 0, 2), ([[1, 'E'], [2, 3]], 1, 2), ([[True, 1], [1, 3]], 1, 2),
+            ([[1, None], [2, 3]], 1, 2)]:
+        cases.append(Case('vlookup-odd-cells',
+                          ['vlookup', wv(key), 'A:' + ';'.join(','.join(oddw(x) for x in r) for r in tb), wv(col), 'B:0'],
+                          (lambda tb=tb, key=key, col=col: F['VLOOKUP'](key, arr([[oddv(x) for x in r] for r in tb]), col,
+                                                                     False)),
+                          {'fn': 'VLOOKUP', 'lookup': key, 'table': tb, 'col': col, 'range_lookup': False}))
+
     # ---------------------------------------------------------------- COUNTIFS
     npairs_runs = 0 if replay_only else 30000 if thorough else 500
     for _ in range(npairs_runs):
